@@ -177,3 +177,6 @@ PROPS = {
                "it follows the layout of the timer heap).",
                nontrivial=_base.nontrivial_fn, max_jobs=_base.max_jobs),
 }
+
+from .props_sched import upgrade as _upgrade_sched    # noqa: E402
+_upgrade_sched(PROPS["C08"])
